@@ -19,14 +19,18 @@ CHECKS = {
              "definition+instantiation) plus a simulation of the full grammar. Every explored program is replayed: the "
              "rendered text must parse back to the generated AST, FileBuilder::eval_string must give the predicted "
              "success/failure and values, AST::translate must emit the predicted op sequence op for op with the "
-             "predicted statement positions. Deviations of the code from the reference are named (VM.tla devs) and "
-             "matched against known findings.",
+             "predicted statement positions. impl->spec: a sample of executions is recorded by the `verif` hooks (one "
+             "event before every dispatched opcode with pointer, nesting depth, stack length and top of stack; one per "
+             "binding_push) and must be a behaviour of VM.tla (VMTrace.tla; a corrupted trace is shown to be rejected on "
+             "every run). Deviations of the code from the reference are named (VM.tla devs) and matched against known "
+             "findings.",
         design_ref="DESIGN.md §4.1-§4.3, §5/C01",
         note="Trusted: TLC, vp/render.py (checked on every case by parsing back), harness projections. Assumptions read "
              "off the code where the reference is silent are listed in the evidence. Float division/modulus, regex, "
              "comparison of function values are outside the modelled domain (never generated).",
         technique="TLA+ specs (Eval/Translate/VM/Gen) model-checked and simulated with TLC; spec->impl replay of every "
-                  "explored program (values, op sequences, op positions)",
+                  "explored program (values, op sequences, op positions); impl->spec trace validation of recorded VM "
+                  "executions (VMTrace.tla)",
     ),
     "C02": dict(
         category="model_checking",
@@ -146,7 +150,8 @@ CHECKS = {
              "BindMonotone is an action property of VM.tla's main frame. Replayed: the whole program and EVERY proper "
              "prefix are evaluated by FileBuilder::eval_string; each binding a prefix makes must be present and equal in "
              "the whole program and equal to the specification's prediction; rebinding / reserved words / leaked names "
-             "must fail as predicted.",
+             "must fail as predicted. Recorded executions (opcode and binding_push events) are validated against VM.tla "
+             "by VMTrace.tla: each bind event must agree with the model's symbol table of the frame it writes to.",
         design_ref="DESIGN.md §4.1-§4.3, §5/C10",
         note="Trusted: TLC, vp/render.py, harness eval projection. Reserved words: the list of vm.rs reserved_words plus "
              "`env`, written into Eval.tla. The rebind family is exhaustive in its bound, the scope families and the "
